@@ -127,6 +127,23 @@ def run(repo: Repo, rep: Report, tier: str) -> None:
     consts16 = [n for n in walk_local(iov16.node) if isinstance(n, ast.Assign) and isinstance(n.targets[0], ast.Name) and n.targets[0].id == "color" and isinstance(n.value, ast.Constant) and isinstance(n.value.value, str)]
     rep.check(not consts16, "C02-R16", "_inject_output_value_wire_color never answers with a constant colour", "every colour comes from the connection planner" if not consts16 else
               f"`{norm(consts16[0])}` stands whenever no edge carries the operand's own name: the gate then copies from red although a merged bundle arrives on green", iov16.loc(consts16[0]) if consts16 else iov16.loc())
+    rep.rule("C02-R17", "a wildcard row of a folded condition reads its own bundle only: `(any(b1) > 6) && (any(b2) > 6)` is one decider with two signal-anything rows, b1 and b2 "
+             "arrive on different colours, and each row must be told its colour — the edge that brings a bundle is named after the bundle, never after the wildcard, so the "
+             "per-row injection may not insist on an edge under the row's own signal name")
+    icw = repo.func("LayoutPlanner._inject_condition_wire_colors")
+    stores17 = [n for n in walk_local(icw.node) if isinstance(n, ast.Assign) and isinstance(n.targets[0], ast.Subscript) and "_signal_wires" in norm(n.targets[0])]
+    if not stores17:
+        raise AnalysisError("C02-R17: the per-row colour store was not found in _inject_condition_wire_colors")
+    for st17 in stores17:
+        strict = []
+        for gnode, pol in __import__("fv.sites", fromlist=["guard_chain"]).guard_chain(icw, st17, parents_map(icw.node)):
+            if not pol:
+                continue
+            gexp = canon(icw).node(gnode, st17)
+            conj = list(gexp.values) if isinstance(gexp, ast.BoolOp) and isinstance(gexp.op, ast.And) else [gexp]
+            strict += [c for c in conj if isinstance(c, ast.Compare) and isinstance(c.ops[0], ast.In) and "_edge_wire_colors" in norm(c.comparators[0])]
+        rep.check(not strict, "C02-R17", "_inject_condition_wire_colors: a row is coloured whenever its source is wired to the decider", "no exact-name requirement" if not strict else
+                  f"requires `{norm(strict[0])[:100]}`: a signal-anything / signal-everything row has no edge of that name and stays unselected, so it sees both bundles", icw.loc(st17))
     rep.rule("C02-R14", "a wildcard compared with a signal does not count that signal: `any(b) CMP k` / `all(b) CMP k` is a decider whose first operand is signal-anything / "
              "signal-everything; the placement raises the separation flag for it, and the planner then brings the scalar in on green as it does for a bundle filter")
     pa = ep.methods["_place_arithmetic"]
